@@ -493,6 +493,12 @@ impl MediaStreamTrack for SampleStreamTrack {
 
     async fn recv(&self) -> MediaResult<MediaSample> {
         loop {
+            // Create the wait future before checking the conditions: stop() and the
+            // last source drop use notify_waiters(), which stores no permit and only
+            // wakes futures that already exist, so a future created after the checks
+            // would miss a close that lands in between and wait forever.
+            let notified = self.notify.notified();
+
             if self.ended.load(Ordering::SeqCst) {
                 return Err(MediaError::EndOfStream);
             }
@@ -513,7 +519,7 @@ impl MediaStreamTrack for SampleStreamTrack {
                 }
             }
 
-            self.notify.notified().await;
+            notified.await;
             if self.source_closed.load(Ordering::Acquire) && self.queue.is_empty() {
                 self.ended.store(true, Ordering::SeqCst);
                 return Err(MediaError::EndOfStream);
